@@ -73,14 +73,13 @@ def exec (op : String) (ts : List String) (impl : List String) : Option String :
     -- get_property / get_property_val / get_property_val_str all answer for the FIRST property
     -- whose key equals the wanted one case-insensitively; a key without a value has the value
     -- `None` and the string "" (so that presence and absence of a key stay apart)
-    pure (match lookup ps k with
-      | none => "0 none none"
-      | some p =>
-        match p.val with
-        | none => "1 novalue str -"
-        | some v =>
-          let s := if v.any (· ≥ 0x80) then "?" else hexOfBytes v
-          s!"1 val {hexOfBytes v} str {s}")
+    -- (the model functions `getVal` / `getValStr` of Model/Txt, `Props.C16.getters_spec`)
+    pure (match getVal ps k, getValStr ps k with
+      | some none, some s => s!"1 novalue str {hexOfBytes s}"
+      | some (some v), some s =>
+        let st := if v.any (· ≥ 0x80) then "?" else hexOfBytes s
+        s!"1 val {hexOfBytes v} str {st}"
+      | _, _ => "0 none none")
   | _ => none
 
 /-- every length-prefixed string of an encoded TXT stays inside the buffer (and is
